@@ -408,11 +408,16 @@ pub async fn run_col_case(case: &ColCase, scripts: usize) -> ColOutcome {
                 pos += k;
                 continue;
             }
-            let want = match r.below(4) {
+            // scripts 0..2 stay within fetch_hint (the way RowSetIterator drives a column); the later
+            // scripts also ask for batches that span several blocks, which `ConcreteColumnIterator`
+            // supports by design (it moves on to the next block until `expected_size` is reached)
+            let span = s >= 2 && std::env::var("RLV_LAB_NO_SPAN").is_err();
+            let want = match r.below(if span { 6 } else { 4 }) {
                 0 => None,
                 1 => Some(1),
                 2 => Some(1 + r.below(hint.max(1) as u64) as usize),
-                _ => Some(hint.max(1)),
+                3 => Some(hint.max(1)),
+                _ => Some(hint + 1 + r.below((3 * hint + 40) as u64) as usize),
             };
             match it.next_batch(want).await {
                 Ok(Some((row_id, arr))) => {
